@@ -224,7 +224,7 @@ func c15caches(p *Prog, r *Report) {
 	r.Rule(rule, 8, "cache fields are unexported and written only by their lazy getters")
 	type spec struct {
 		pkg, typ, field string
-		writers        []string
+		writers         []string
 	}
 	specs := []spec{
 		{HG, "Event", "creator", []string{"Creator"}}, {HG, "Event", "hash", []string{"Hash"}}, {HG, "Event", "hex", []string{"Hex"}},
@@ -253,7 +253,7 @@ func c15caches(p *Prog, r *Report) {
 	// lazy getters compute from the content: Event.Hash <- Body.Hash, Block.Hash <- Marshal, Hex <- Hash
 	for _, g := range []struct {
 		typ, m string
-		dep   fnMatch
+		dep    fnMatch
 	}{
 		{"Event", "Hash", named(HG + ".EventBody.Hash")}, {"Event", "Hex", named(HG + ".Event.Hash")},
 		{"Event", "Creator", named(COMM + ".EncodeToString")}, {"Block", "Hex", named(HG + ".Block.Hash")},
